@@ -19,6 +19,7 @@
 """Blueprint for version 1 of API
 """
 import binascii
+import hmac
 import logging
 import time
 import re
@@ -36,11 +37,13 @@ blueprint = Blueprint('v1', __name__)
 auth = HTTPBasicAuth()
 
 
-@auth.get_password
-def get_pw(username):
-    if username == cfg.CONF.rest.username:
-        return cfg.CONF.rest.password
-    return None
+@auth.verify_password
+def verify_pw(username, password):
+    if username != cfg.CONF.rest.username or password is None:
+        return False
+    # compare octets: on str the comparison refuses non-ASCII characters and
+    # the request ended in a 500 instead of a 401
+    return hmac.compare_digest(password.encode('utf-8'), cfg.CONF.rest.password.encode('utf-8'))
 
 
 @blueprint.route('/')
